@@ -269,6 +269,24 @@ def eval_undiscounted(sx, shape, combo, calls=1, via='table'):
                 sx.prove(not core._is_inf(v), f'finite-otherwise[{s}]')
                 if not core._is_inf(v):
                     sx.prove_eq(v, W[s], f'expected-total-reward[{s}]', tol=F(1, 10**7))
+        # action values (also of actions the policy never takes): one-step look-ahead of the state values, minus infinity exactly
+        # when some positive-probability successor is worth minus infinity; unavailable actions are minus infinity
+        for s in range(sh.S):
+            if s in absorbing:
+                continue
+            for a in range(sh.A):
+                q = res.action_value[L[s], AL[a]]
+                if a not in sh.avail[s]:
+                    sx.prove(core._is_inf(q) and q < 0, f'unavailable-neg-inf[{s},{a}]')
+                    continue
+                succ = [ns for ns, p in sh.rows[(s, a)].items() if p > 0]
+                if any(ns in minus_inf for ns in succ):
+                    sx.prove(core._is_inf(q) and q < 0, f'action-value-minus-inf-through-costly-class[{s},{a}]')
+                else:
+                    sx.prove(not core._is_inf(q), f'action-value-finite[{s},{a}]')
+                    if not core._is_inf(q):
+                        want = ssum(sx.const(sh.rows[(s, a)][ns]) * (rew[(s, a, ns)] + W[ns]) for ns in succ)
+                        sx.prove_eq(q, want, f'action-value-is-lookahead-of-state-values[{s},{a}]', tol=F(1, 10**7))
         sx.observe('V', [res.state_value[L[s]] for s in range(sh.S)])
 
 
